@@ -293,13 +293,23 @@ static KV genCase()
                     s.aniso = rint(0, 1);
                 if (rint(0, 5) == 0)
                     s.div = rint(0, 1);
-                if (rint(0, 5) == 0) {
-                    // another shipped test problem on the same object: setParameters() again, then the options
-                    s.geometry = rint(0, 2);
-                    s.problem  = rint(0, 2);
-                    s.alpha    = rint(0, 3);
-                    s.beta     = rint(0, 1);
-                    genGeometryParams(s);
+                if (rint(0, 4) == 0) {
+                    // setParameters() again on the same object, then the options: another shipped test problem, or
+                    // (half of the time) the SAME selection tuple with another outer radius only - the input functions
+                    // depend on Rmax too
+                    if (rbool()) {
+                        s.geometry = rint(0, 2);
+                        s.problem  = rint(0, 2);
+                        s.alpha    = rint(0, 3);
+                        s.beta     = rint(0, 1);
+                        genGeometryParams(s);
+                    }
+                    else {
+                        const double old = s.Rmax;
+                        s.Rmax           = old == 1.3 ? rpick({1.0, 2.0}) : 1.3;
+                        if (s.aniso)
+                            s.alpha_jump *= s.Rmax / old; // keeps the refined region inside the domain
+                    }
                     s.R0 = s.Rmax * rpick({1e-5, 1e-3, 1e-2});
                     c.putI("r" + std::to_string(k) + "_reselect", 1);
                 }
